@@ -29,8 +29,16 @@ FLAVOURS = {
 }
 
 
+@spec_class(key="k", bootstrap=True)
+class KOther:           # a keyed spec class that is not the declared item type but yields the same keys
+    k: str
+    p: int = 0
+
+
 def expressible(flavour, item):
     if item["bad"] == "key" and flavour in ("self", "spec"):
+        return False
+    if item["bad"] == "itemk" and flavour == "self":
         return False
     if flavour == "self" and item["p"] != 0:
         return False
@@ -43,6 +51,8 @@ def gamma_item(flavour, item):
         return {"self": 5, "fn": "zz", "spec": 5, "intkey": "zz"}[flavour]
     if bad == "key":
         return {"fn": (7, 0), "intkey": ("s", 0)}[flavour]
+    if bad == "itemk":          # wrong item type, good key
+        return KOther(k=item["k"], p=item["p"]) if flavour == "spec" else [item["k"], item["p"]]
     if flavour == "self":
         return item["k"]
     if flavour == "spec":
@@ -247,7 +257,7 @@ def run_random(job):
     universe = [{"k": k, "p": p, "bad": "no"} for k in keys for p in pays]
     bads = []
     if typed:
-        bads = [x for x in ({"k": keys[0], "p": 0, "bad": "item"}, {"k": keys[0], "p": 0, "bad": "key"})
+        bads = [x for x in ({"k": keys[0], "p": 0, "bad": "item"}, {"k": keys[0], "p": 0, "bad": "key"}, {"k": keys[0], "p": 0, "bad": "itemk"}, {"k": keys[-1], "p": 0, "bad": "itemk"})
                 if expressible(flavour, x)]
     ops, rds, seen = [], [], set()
     for h in range(n_hist):
